@@ -107,4 +107,11 @@ axes and `np.diag` accepts only one or two: the code as it is raises `ValueError
 def basisVarianceImpl (d : ℕ) (var : ℕ → ℚ) : Except String (ℕ → ℚ) :=
   if d = 1 then .ok var else .error "ValueError"
 
+/-- `MultivariateFunctionalData.normalize` divides every component by the multivariate
+norm with `component / norm`; `BasisFunctionalData` defines no division, so the code as
+it is raises `TypeError` as soon as one component is a basis expansion (open finding
+C10-multivariate-basis-normalize).  `hasBasis i` says whether component `i` is one. -/
+def multiNormalizeImpl (P : ℕ) (hasBasis : ℕ → Bool) : Except String Unit :=
+  if (List.range P).any hasBasis then .error "TypeError" else .ok ()
+
 end FDA
